@@ -137,6 +137,16 @@ def showPOut (net : Network) : POut → String
   | .ok none => "ok None"
   | .ok (some o) => "ok " ++ showObj net o
 
+/-- one `parseable_str` object through a list of `net:entry` calls; answers joined by ` | ` -/
+def history (text steps : String) : Option String := do
+  let text ← parseText? text
+  let steps ← parseList? (fun st => match st.splitOn ":" with
+    | [n, e] => do pure ((← findNet n), e)
+    | _ => none) steps
+  let outs := historyRun realEnv text (fun e (st : Network × String) => (st.1, parseEntry e realKeyEnv st.1 st.2 text)) PsCache.empty steps
+  let shown ← outs.mapM fun (net, r) => r.map (showPOut net)
+  some ("ok " ++ " | ".intercalate shown)
+
 def handle : Handler := fun op args =>
   match op, args with
   | "c18parse", [net, entry, text] => do
@@ -156,6 +166,8 @@ def handle : Handler := fun op args =>
         | some (.ok (some _)) => go es (e :: acc)
         | _ => go es acc
     some (go checksummedEntries [])
+  | "c08history", [text, steps] => history text steps
+  | "c18history", [text, steps] => history text steps
   | "c18mulg", [se] => do
     let se ← parseNat? se
     let fast := realKeyEnv.mulG se
